@@ -4,7 +4,6 @@
 //!   edit <hex> f=v …    C03: apply edits through the public fields, encode, decode, compare
 use rosu_map::section::general::{CountdownType, GameMode};
 use rosu_map::section::hit_objects::{HitObject, HitObjectKind};
-use rosu_map::section::Section;
 use rosu_map::Beatmap;
 
 use crate::dump::*;
